@@ -222,5 +222,6 @@ LEVEL_TEXT = ('Generated-input search over orthogonal wavelets, level counts and
               'configuration the square operator is extracted and A^T A = A A^T = I, inverse = A^T and '
               'autograd Jacobian = A are checked entrywise (all inputs of that configuration), plus energy / '
               'inner-product preservation on dense inputs. Thorough tier visits every orthogonal wavelet.')
+LEVEL_TEXT += (' Also generated: separate orthogonal row/column wavelets, mode spelled per, modules with a past, back-propagation through the inverse for gradient subsets, overwritten caller arrays.')
 LEVEL_NOTE = 'Sampled sizes (1-D <= 512, 2-D <= 64 per axis, full matrices up to 640 / 400 samples); float64, tol 1e-9.'
 TECHNIQUE = 'property-based testing (Hypothesis), algebraic invariants on extracted operators'
